@@ -674,6 +674,25 @@ func wireKeyOwnership(p *Prog, r *Report, w *Wire, clause, name string, allowedC
 		r.Check(ok, kp("WIRE", "store:"+name+"→"+ku.Callee), "the store key is handed only to its own module's keeper constructor", p.Pos(ku.Pos),
 			fmt.Sprintf("keys[%q] is argument %d of %s", name, ku.Arg, ku.Callee),
 			fmt.Sprintf("keys[%q] is also given to %s: a second keeper over the same store can write %s behind the module's handlers, and a second module exports and imports the same entries", name, ku.Callee, what))
+		if !ok {
+			continue
+		}
+		// … and it lands in the field the keeper opens its KV store with (not in a neighbouring key slot of the constructor)
+		field := constructorField(p, ku.Callee, ku.Arg)
+		if field == "" {
+			continue // handed on (e.g. to an embedded SDK keeper) rather than stored in a field of its own
+		}
+		i := strings.LastIndex(ku.Callee, ".")
+		root := ku.Callee[:i] + ".Keeper." + field
+		used := false
+		for _, so := range p.StoreOps() {
+			if so.KeyRoot == root {
+				used = true
+			}
+		}
+		r.Check(used && field != "<unused parameter>", kp("WIRE", "store:"+name+"→"+ku.Callee+"#opens-the-store"), "the module's committed store key is the key its keeper opens the KV store with", p.Pos(ku.Pos),
+			fmt.Sprintf("keys[%q] is stored in %s, which the keeper passes to ctx.KVStore", name, root),
+			fmt.Sprintf("keys[%q] is argument %d of %s and ends up in %q, which the keeper never opens a store with: the keeper's store operations go to whatever key sits in the slot it does use (a memory store loses %s at every restart)", name, ku.Arg, ku.Callee, field, what))
 	}
 	r.Floor("uses-of-keys["+name+"]", n, 1)
 }
